@@ -213,6 +213,16 @@ func CaseRecv[T any](ch <-chan T) Case {
 	return Case{m: modelOf(s, ch)}
 }
 
+// CaseSend builds a send clause `ch <- v`.
+func CaseSend[T any](ch chan<- T, v T) Case {
+	s := Cur()
+	if s == nil {
+		return Case{real: reflect.ValueOf(ch), send: true, val: v}
+	}
+	bi := *(*<-chan T)(unsafe.Pointer(&ch))
+	return Case{m: modelOf(s, bi), send: true, val: v}
+}
+
 // CaseCtx builds a `<-ctx.Done()` clause.
 func CaseCtx(ctx context.Context) Case {
 	if Cur() == nil {
@@ -228,6 +238,10 @@ func Select(cases ...Case) (int, any) {
 	if s == nil {
 		rc := make([]reflect.SelectCase, len(cases))
 		for i, c := range cases {
+			if c.send {
+				rc[i] = reflect.SelectCase{Dir: reflect.SelectSend, Chan: c.real, Send: reflect.ValueOf(c.val)}
+				continue
+			}
 			rc[i] = reflect.SelectCase{Dir: reflect.SelectRecv, Chan: c.real}
 		}
 		i, v, _ := reflect.Select(rc)
